@@ -64,6 +64,41 @@ def TaskNoEmit (m : Nat) : Task → Prop
 @[simp] theorem emitEv_out (σ : St) (e : Ev) : (emitEv σ e).out = σ.out ++ [e] := rfl
 @[simp] theorem emitEv_heap (σ : St) (e : Ev) : (emitEv σ e).heap = σ.heap := rfl
 
+theorem bindKeys_out (fs : List (Nat × Int)) (ks : List Nat) : ∀ (σ : St) (x : Nat),
+    (bindKeys σ x fs ks).out = σ.out := by
+  induction ks with
+  | nil => intro σ x; rfl
+  | cons k ks ih => intro σ x; simp [bindKeys, ih]
+
+theorem bindKeys_heap (fs : List (Nat × Int)) (ks : List Nat) : ∀ (σ : St) (x : Nat),
+    (bindKeys σ x fs ks).heap = σ.heap := by
+  induction ks with
+  | nil => intro σ x; rfl
+  | cons k ks ih => intro σ x; simp [bindKeys, ih]
+
+@[simp] theorem bindCatch_out (σ : St) (ty : Option Ty) (x : Nat) (v : Val) :
+    (bindCatch σ ty x v).out = σ.out := by
+  unfold bindCatch
+  split
+  · exact bindKeys_out _ _ _ _
+  · rfl
+
+@[simp] theorem bindCatch_heap (σ : St) (ty : Option Ty) (x : Nat) (v : Val) :
+    (bindCatch σ ty x v).heap = σ.heap := by
+  unfold bindCatch
+  split
+  · exact bindKeys_heap _ _ _ _
+  · rfl
+
+/-- anything but a map pattern binds just the catch variable -/
+theorem bindCatch_plain (σ : St) (ty : Option Ty) (x : Nat) (v : Val)
+    (h : ∀ ks, ty ≠ some (.keys ks)) : bindCatch σ ty x v = setLocal σ x v := by
+  unfold bindCatch
+  split
+  · rename_i ks fs
+    exact absurd rfl (h ks)
+  · rfl
+
 theorem callResult_out (l : List Val) (r : Res) : (callResult l r).2.out = r.2.out := by
   obtain ⟨s, σ⟩ := r
   cases s <;> rfl
@@ -76,7 +111,7 @@ theorem finish_out (p : Sig) (r : Res) : (finish p r).2.out = r.2.out := by
   obtain ⟨s, σ⟩ := r
   cases s <;> cases p <;> rfl
 
-attribute [grind =] setLocal_out alloc_out emitEv_out countTag_append callResult_out finish_out
+attribute [grind =] setLocal_out alloc_out emitEv_out countTag_append callResult_out finish_out bindCatch_out
 
 theorem mem2 {m : Nat} {a b : E} (ha : NoEmit m a) (hb : NoEmit m b) : ∀ e ∈ [a, b], NoEmit m e := by
   intro e he; simp at he; rcases he with rfl | rfl <;> assumption
